@@ -3,17 +3,17 @@ EXTENDS BulkAlg, TLAPS
 
 USE DEF Idx, Assumptions, params, Frame, In, Wanted
 
-LEMMA InitInv == Init => Inv
-  BY DEF Init, Inv, TypeOK, Disjoint, SandwichInv, CoverInv, Post, Settled
+LEMMA InitCore == Init => Core
+  BY DEF Init, Core, TypeOK, Disjoint, SandwichInv, CoverInv, Post, Settled
 
-LEMMA DropInv == ASSUME Inv, NEW f \in frames, Drop(f) PROVE Inv'
-  BY DEF Inv, Drop, TypeOK, Disjoint, SandwichInv, CoverInv, Post, Settled
+LEMMA DropCore == ASSUME Core, NEW f \in frames, Drop(f) PROVE Core'
+  BY DEF Core, Drop, TypeOK, Disjoint, SandwichInv, CoverInv, Post, Settled
 
-LEMMA OneInv == ASSUME Inv, NEW f \in frames, One(f) PROVE Inv'
+LEMMA OneCore == ASSUME Core, NEW f \in frames, One(f) PROVE Core'
   <1>0. /\ TypeOK /\ Disjoint /\ SandwichInv /\ CoverInv /\ pc = "run" /\ f.hi - f.lo = 1
         /\ frames' = frames \ {f} /\ arr' = arr /\ pc' = pc /\ Len0' = Len0 /\ W' = W
         /\ f.lo \in Int /\ f.hi \in Int /\ f.hi = f.lo + 1
-    BY DEF Inv, One, TypeOK
+    BY DEF Core, One, TypeOK
   <1>1. TypeOK' /\ Disjoint' /\ SandwichInv' /\ Post'
     BY <1>0 DEF TypeOK, Disjoint, SandwichInv, Post
   <1>2. CoverInv'
@@ -34,23 +34,23 @@ LEMMA OneInv == ASSUME Inv, NEW f \in frames, One(f) PROVE Inv'
     <2>b. CASE ~In(f, w)
       BY <1>0, <2>b DEF CoverInv, Settled
     <2> QED BY <2>a, <2>b
-  <1> QED BY <1>1, <1>2 DEF Inv
+  <1> QED BY <1>1, <1>2 DEF Core
 
-LEMMA EmptyInv == ASSUME Inv, NEW f \in frames, EmptyRangePanic(f) PROVE Inv'
-  BY DEF Inv, EmptyRangePanic, TypeOK, Disjoint, SandwichInv, CoverInv, Post, Settled
+LEMMA EmptyCore == ASSUME Core, NEW f \in frames, EmptyRangePanic(f) PROVE Core'
+  BY DEF Core, EmptyRangePanic, TypeOK, Disjoint, SandwichInv, CoverInv, Post, Settled
 
-LEMMA FinishInv == Inv /\ Finish => Inv'
-  BY DEF Inv, Finish, TypeOK, Disjoint, SandwichInv, CoverInv, Post, Settled
+LEMMA FinishCore == Core /\ Finish => Core'
+  BY DEF Core, Finish, TypeOK, Disjoint, SandwichInv, CoverInv, Post, Settled
 
-LEMMA StutterInv == Inv /\ UNCHANGED vars => Inv'
-  BY DEF Inv, vars, TypeOK, Disjoint, SandwichInv, CoverInv, Post, Settled
+LEMMA StutterCore == Core /\ UNCHANGED vars => Core'
+  BY DEF Core, vars, TypeOK, Disjoint, SandwichInv, CoverInv, Post, Settled
 
-LEMMA SplitInv == ASSUME Inv, NEW f \in frames, Split(f) PROVE Inv'
+LEMMA SplitCore == ASSUME Core, NEW f \in frames, Split(f) PROVE Core'
   <1>0. /\ TypeOK /\ Disjoint /\ SandwichInv /\ CoverInv /\ pc = "run" /\ f.hi - f.lo >= 2 /\ pc' = pc /\ Len0' = Len0 /\ W' = W
         /\ f \in Frame /\ f.lo \in Int /\ f.hi \in Int /\ 0 <= f.lo /\ f.hi <= Len0 /\ Len0 \in Nat /\ arr \in [Idx -> Int]
-    BY DEF Inv, Split, TypeOK
+    BY DEF Core, Split, TypeOK
   <1>1. PICK k \in 0 .. (f.hi - f.lo - 1) :
-          /\ PartitionContract(f, arr, arr', k)
+          /\ PartitionContract(f, arr, arr', k, lastq')
           /\ frames' = (frames \ {f}) \cup {[lo |-> f.lo, hi |-> f.lo + k], [lo |-> f.lo + k + 1, hi |-> f.hi]}
     BY DEF Split
   <1> DEFINE L == [lo |-> f.lo, hi |-> f.lo + k]
@@ -61,7 +61,7 @@ LEMMA SplitInv == ASSUME Inv, NEW f \in frames, Split(f) PROVE Inv'
         /\ \A y \in Idx : In(f, y) => \E y0 \in Idx : In(f, y0) /\ arr'[y] = arr[y0]
         /\ \A y \in Idx : (In(f, y) /\ y < p) => arr'[y] < arr'[p]
         /\ \A y \in Idx : (In(f, y) /\ y > p) => arr'[y] >= arr'[p]
-    BY <1>1 DEF PartitionContract
+    BY <1>1 DEF PartitionContract, Rearranges
   <1>3. /\ k \in Int /\ 0 <= k /\ k < f.hi - f.lo /\ p \in Idx /\ In(f, p) /\ p \in Int
         /\ L \in Frame /\ R \in Frame /\ L.lo = f.lo /\ L.hi = p /\ R.lo = p + 1 /\ R.hi = f.hi
         /\ L.lo <= L.hi /\ R.lo <= R.hi
@@ -191,10 +191,57 @@ LEMMA SplitInv == ASSUME Inv, NEW f \in frames, Split(f) PROVE Inv'
     <2> QED BY <2>a, <2>b
   <1>11. Post'
     BY <1>0 DEF Post
-  <1> QED BY <1>7, <1>8, <1>9, <1>10, <1>11 DEF Inv
+  <1> QED BY <1>7, <1>8, <1>9, <1>10, <1>11 DEF Core
+
+LEMMA InitPerm == Init => PermInv
+  BY DEF Init, PermInv
+
+LEMMA SplitPerm == ASSUME Inv, NEW f \in frames, Split(f) PROVE PermInv'
+  <1>0. PermInv /\ Len0' = Len0 /\ Arr0' = Arr0
+    BY DEF Inv, Split
+  <1>1. PICK k \in 0 .. (f.hi - f.lo - 1) : PartitionContract(f, arr, arr', k, lastq')
+    BY DEF Split
+  <1> DEFINE q == lastq'
+  <1>2. q \in [Idx -> Idx] /\ perm' = [x \in Idx |-> perm[q[x]]]
+    BY DEF Split
+  <1>3. /\ \A x \in Idx : \A y \in Idx : x # y => q[x] # q[y]
+        /\ \A x \in Idx : arr'[x] = arr[q[x]]
+        /\ \A x \in Idx : q[x] \in Idx
+    BY <1>1, <1>2 DEF PartitionContract, Rearranges
+  <1>4. /\ perm \in [Idx -> Idx] /\ Arr0 \in [Idx -> Int]
+        /\ \A x \in Idx : \A y \in Idx : x # y => perm[x] # perm[y]
+        /\ \A x \in Idx : arr[x] = Arr0[perm[x]]
+    BY <1>0 DEF PermInv
+  <1>5. /\ perm' \in [Idx -> Idx]
+        /\ \A x \in Idx : \A y \in Idx : x # y => perm'[x] # perm'[y]
+        /\ \A x \in Idx : arr'[x] = Arr0[perm'[x]]
+    <2> HIDE DEF Idx
+    <2> QED BY <1>2, <1>3, <1>4
+  <1> QED BY <1>0, <1>4, <1>5 DEF PermInv
+
+LEMMA KeepPerm == ASSUME PermInv, UNCHANGED <<arr, perm, Arr0, Len0>> PROVE PermInv'
+  BY DEF PermInv
 
 THEOREM Safety == Spec => []Inv
   <1>1. Inv /\ [Next]_vars => Inv'
-    BY DropInv, OneInv, EmptyInv, SplitInv, FinishInv, StutterInv DEF Next
-  <1>. QED  BY InitInv, <1>1, PTL DEF Spec
+    <2> SUFFICES ASSUME Inv, [Next]_vars PROVE Inv'
+      OBVIOUS
+    <2>1. Core /\ PermInv
+      BY DEF Inv
+    <2>a. CASE Finish
+      BY <2>1, <2>a, FinishCore, KeepPerm DEF Inv, Finish
+    <2>b. CASE \E f \in frames : Drop(f)
+      BY <2>1, <2>b, DropCore, KeepPerm DEF Inv, Drop
+    <2>c. CASE \E f \in frames : One(f)
+      BY <2>1, <2>c, OneCore, KeepPerm DEF Inv, One
+    <2>d. CASE \E f \in frames : EmptyRangePanic(f)
+      BY <2>1, <2>d, EmptyCore, KeepPerm DEF Inv, EmptyRangePanic
+    <2>e. CASE \E f \in frames : Split(f)
+      BY <2>1, <2>e, SplitCore, SplitPerm DEF Inv
+    <2>f. CASE UNCHANGED vars
+      BY <2>1, <2>f, StutterCore, KeepPerm DEF Inv, vars
+    <2> QED BY <2>a, <2>b, <2>c, <2>d, <2>e, <2>f DEF Next
+  <1>2. Init => Inv
+    BY InitCore, InitPerm DEF Inv
+  <1>. QED  BY <1>1, <1>2, PTL DEF Spec
 =============================================================================
